@@ -681,6 +681,18 @@ def assignment_atoms(fn, e):
     rk = key(fn, rhs)
     if not isinstance(rk, tuple) or not _pure_key(rk):
         return out
+    # X = (A > B ? B : A) and the like: the minimum / maximum of two operands is bounded by each of them; a bound by an
+    # operand that is X itself (X = X > B ? B : X) speaks of the old value and is left out
+    if rk[0] == "?" and len(rk) == 4 and isinstance(rk[1], tuple) and rk[1][0] == "b" and rk[1][1] in ("<", "<=", ">", ">="):
+        c = rk[1]
+        if {rk[2], rk[3]} == {c[2], c[3]} and c[2] != c[3]:
+            first_is_smaller_when_true = c[1] in ("<", "<=")
+            picks_first = rk[2] == c[2]
+            is_min = (first_is_smaller_when_true and picks_first) or (not first_is_smaller_when_true and not picks_first)
+            for operand in (c[2], c[3]):
+                if not (key_vars(lk) & key_vars(operand)) and _pure_key(operand):
+                    out.append(("rel", lk, "<=" if is_min else ">=", operand) if operand[0] != "i" else ("cmp", lk, "<=" if is_min else ">=", operand[1]))
+            return out
     if key_vars(lk) & key_vars(rk):
         return out
     if rk[0] == "c" and rk[1] in ALLOC_CALLS and lk[0] == "v":
@@ -770,6 +782,16 @@ def derive_atoms(atoms, s):
             for b in s:
                 if b[0] == "cmp" and b[1] == a[3] and b[2] == "==" and isinstance(b[3], int):
                     out.append(("cmp", a[1], a[2], b[3]))
+        if a[0] == "rel":
+            # a relation with a local that still holds the value of an expression (k = f(n); if (len != k) ...):
+            # the same relation with the expression
+            for side, other in ((1, 3), (3, 1)):
+                if isinstance(a[side], tuple) and a[side][0] == "v":
+                    for b in s:
+                        if b[0] == "rel" and b[1] == a[side] and b[2] == "==" and b[3] != a[other]:
+                            na = list(a)
+                            na[side] = b[3]
+                            out.append(tuple(na))
     return out
 
 
